@@ -8,6 +8,7 @@
    electricity reading being missing. *)
 From Coq Require Import ZArith List Bool Lia.
 From V Require Import Model.HourlyPrep Proofs.HourlyPrepProofs.
+From V Require Import Model.HourlyPrepTable Proofs.HourlyPrepTableProofs Generated.HourlyPrepGen Proofs.HourlyPrepGenProofs.
 Import ListNotations.
 Open Scope Z_scope.
 
@@ -311,3 +312,76 @@ Proof. vm_compute. reflexivity. Qed.
 Example ex_empty_column : interp_col zlin ex_est Ghi [None; None; None] = [None; None; None] /\
   flags [None; None; None] (interp_col zlin ex_est Ghi [None; None; None]) = [false; false; false].
 Proof. split; vm_compute; reflexivity. Qed.
+
+(* ================================================================ the structure of the source, read on every run
+   harness/translate_hourlyprep.py reads with `ast` the order of the steps of _set_data, the zero rule, keep=, the hours
+   of the first / last stamp, the threshold of the autocorrelation stage, the ORDER of the fall-back methods with what
+   each branch calls, and the flag rule, into Generated/HourlyPrepGen.v ([gen_pipeline : option pipeline], [None] when a
+   construct is not recognised).  Model/HourlyPrepTable.v interprets such a table ([prep_col_by]). *)
+
+(* for every table that satisfies the decidable condition [accepted], all inputs and all estimators: the interpreted
+   table is the frame all theorems above speak about *)
+Theorem C17_table_model_agrees : forall A (is_zero : A -> bool) lin est p elec bnds e (rows : list (row A)) c,
+  accepted p = true ->
+  prep_col_by is_zero lin est p elec bnds e rows c = prep_col is_zero lin est elec bnds e rows c.
+Proof. exact prep_col_by_accepted. Qed.
+Print Assumptions C17_table_model_agrees.
+
+(* once the time method in both directions has run, ffill / bfill in any order and number change nothing
+   (so removing or reordering them is a harmless edit: proved, not sampled) *)
+Theorem C17_fallback_order_is_immaterial : forall A lin rest (x : col A), forallb is_fill rest = true ->
+  fallbacks_by lin (FTime LBoth :: rest) x = fallbacks lin x.
+Proof. exact fallbacks_by_accepted. Qed.
+Print Assumptions C17_fallback_order_is_immaterial.
+
+(* the zero rule and the duplicate removal can be exchanged *)
+Theorem C17_zero_and_dedup_commute : forall A (is_zero : A -> bool) elec (rows : list (row A)),
+  map (zero_to_nan is_zero elec) (remove_duplicates rows) = remove_duplicates (map (zero_to_nan is_zero elec) rows).
+Proof. exact zero_dedup_commute. Qed.
+Print Assumptions C17_zero_and_dedup_commute.
+
+(* the table read from the source on THIS run is accepted (re-checked by vm_compute against the regenerated file) ... *)
+Theorem C17_source_pipeline_accepted : source_accepted.
+Proof. exact gen_pipeline_accepted_l. Qed.
+Print Assumptions C17_source_pipeline_accepted.
+
+(* ... hence the source's own step order / constants / fall-back order, interpreted, give the modelled frame *)
+Theorem C17_source_pipeline_is_model : forall p, gen_pipeline = Some p ->
+  forall A (is_zero : A -> bool) lin est elec bnds e (rows : list (row A)) c,
+    prep_col_by is_zero lin est p elec bnds e rows c = prep_col is_zero lin est elec bnds e rows c.
+Proof. exact gen_pipeline_is_model_l. Qed.
+Print Assumptions C17_source_pipeline_is_model.
+
+(* non-vacuity: today's table is accepted; tables that are not accepted differ from the model on a concrete input *)
+Example ex_model_table_accepted : accepted model_pipeline = true /\
+  accepted (tbl [FTime LBoth; FBfill] KeepFirst FlagMissingAndPresent 72) = true /\
+  accepted (mkpipeline 72 [FTime LBoth; FFfill; FBfill] KeepFirst [RDedup; RZero] true Obs CmpEq 0 true 0 23 60 FlagMissingAndPresent) = true.
+Proof. repeat split. Qed.
+
+Example ex_rejected_tables_differ :
+  accepted (tbl [FTime LBoth; FFfill; FBfill] KeepLast FlagMissingAndPresent 72) = false /\
+  accepted (tbl [FTime LBoth; FFfill; FBfill] KeepFirst FlagMissing 72) = false /\
+  accepted (tbl [FFfill; FBfill] KeepFirst FlagMissingAndPresent 72) = false /\
+  accepted (tbl [FTime LForward; FFfill] KeepFirst FlagMissingAndPresent 72) = false /\
+  accepted (tbl [FTime LBoth; FFfill; FBfill] KeepFirst FlagMissingAndPresent 96) = false /\
+  accepted (mkpipeline 72 [FTime LBoth; FFfill; FBfill] KeepFirst [RZero; RDedup] true Obs CmpLe 0 true 0 23 60 FlagMissingAndPresent) = false /\
+  accepted (mkpipeline 72 [FTime LBoth; FFfill; FBfill] KeepFirst [RZero; RDedup] true Obs CmpEq 0 false 0 23 60 FlagMissingAndPresent) = false /\
+  accepted (mkpipeline 72 [FTime LBoth; FFfill; FBfill] KeepFirst [RZero; RDedup] true Obs CmpEq 0 true 0 22 60 FlagMissingAndPresent) = false.
+Proof. repeat split. Qed.
+
+Example ex_keep_last_differs :
+  prep_col_range_by zzero zlin id_est (tbl [FTime LBoth; FFfill; FBfill] KeepLast FlagMissingAndPresent 72) true 0 60
+                    [R 0 (Some 1) None None; R 0 (Some 2) None None] Temp
+  <> prep_col_range zzero zlin id_est true 0 60 [R 0 (Some 1) None None; R 0 (Some 2) None None] Temp.
+Proof. exact keep_last_differs. Qed.
+
+Example ex_flag_missing_differs :
+  prep_col_range_by zzero zlin id_est (tbl [FTime LBoth; FFfill; FBfill] KeepFirst FlagMissing 72) true 0 60 [R 0 None None None] Temp
+  <> prep_col_range zzero zlin id_est true 0 60 [R 0 None None None] Temp.
+Proof. exact flag_missing_differs. Qed.
+
+Example ex_no_time_method_differs :
+  prep_col_range_by zzero zlin id_est (tbl [FFfill; FBfill] KeepFirst FlagMissingAndPresent 72) true 0 120
+                    [R 0 (Some 0) None None; R 120 (Some 4) None None] Temp
+  <> prep_col_range zzero zlin id_est true 0 120 [R 0 (Some 0) None None; R 120 (Some 4) None None] Temp.
+Proof. exact no_time_method_differs. Qed.
